@@ -208,7 +208,11 @@ def main(argv=None):
     for r in results:
         sha.update(r.get("sha", {}))
         funcs.update(r.get("functions", []))
-    samples = [{k: v[k] for k in ("job", "obligation", "verdict", "time_s", "kind") if k in v} for v in verdicts]
+    samples = [{k: v[k] for k in ("job", "obligation", "verdict", "time_s", "kind", "second_solver") if k in v} for v in verdicts]
+    second_stats = {}
+    for v in verdicts:
+        if "second_solver" in v:
+            second_stats[v["second_solver"]] = second_stats.get(v["second_solver"], 0) + 1
     max_samples = 400
     ev = {
         "property_id": pid,
@@ -221,6 +225,7 @@ def main(argv=None):
             "traces_validated_against_impl": validated,
             "samples": samples[:max_samples],
             "samples_truncated": len(samples) > max_samples,
+            "second_solver_verdicts": second_stats,
             "obligations": len(counted),
             "obligations_unsat": n_unsat,
             "obligations_sat_reproduced": len(sat) - len(not_reproduced),
